@@ -427,6 +427,7 @@ static rt::Verdict eval_case(const Case &c, const rt::Args &) {
     return r.run();
 }
 
+#ifndef FUZZ_TARGET
 static rc::Gen<Op> gen_op() {
     using namespace rc;
     auto mk = [](int code, std::vector<long> a = {}) { Op o; o.code = code; o.a = a; return o; };
@@ -469,3 +470,28 @@ int main(int argc, char **argv) {
     E.default_cases = [](const rt::Args &a) { return a.tier == "thorough" ? 120000L : 4000L; };
     return rcm::run(argc, argv, E);
 }
+#endif // !FUZZ_TARGET
+
+#ifdef FUZZ_TARGET
+// libFuzzer entry: bytes -> Case (structure-aware decoding), same model and oracle as the rapidcheck tier
+#include <fuzzer/FuzzedDataProvider.h>
+extern "C" int LLVMFuzzerTestOneInput(const uint8_t *data, size_t size) {
+    FuzzedDataProvider fdp(data, size);
+    Case c; c.flags = fdp.ConsumeIntegralInRange<int>(0, 7); c.dtor = fdp.ConsumeBool();
+    while (fdp.remaining_bytes() > 0 && c.ops.size() < 80) {
+        Op o; o.code = fdp.ConsumeIntegralInRange<int>(0, NCODES - 1);
+        switch (o.code) {
+        case PUT: o.a = {fdp.ConsumeIntegralInRange<long>(0, 6), fdp.ConsumeIntegralInRange<long>(0, 12), fdp.ConsumeIntegralInRange<long>(0, 1)}; break;
+        case GET: case CONTAINS: case REMOVE: o.a = {fdp.ConsumeIntegralInRange<long>(0, 6), fdp.ConsumeIntegralInRange<long>(0, 12)}; break;
+        case ITERATE: case ITR: { int n = fdp.ConsumeIntegralInRange<int>(0, 12); for (int i = 0; i < n; i++) o.a.push_back(fdp.ConsumeIntegralInRange<long>(0, o.code == ITERATE ? 3 : 2)); break; }
+        case BULK: o.a = {fdp.ConsumeIntegralInRange<long>(0, 500)}; break;
+        default: break;
+        }
+        c.ops.push_back(o);
+    }
+    rt::Args a;
+    rt::Verdict v = eval_case(c, a);
+    fuzz_account(to_text(c), v);
+    return 0;
+}
+#endif
